@@ -36,6 +36,8 @@ func main() {
 	disk := fs.Uint64("disk", 20000, "disk size in blocks")
 	dumpEach := fs.Int("dumpeach", 50, "dump every n steps")
 	prop := fs.String("prop", "", "probes: property filter")
+	sizesFlag := fs.String("sizes", "", "layout: disk sizes, e.g. 1536-1600,32760-32776 (increasing)")
+	fillFlag := fs.String("fill", "", "layout: sizes to fill completely")
 	crashMode := fs.Bool("crashpoints", false, "simple/kvs: enumerate crash points")
 	loss := fs.Int("loss", 2, "crash: random loss sets per barrier window")
 	stride := fs.Int("stride", 1, "crash: probe every n-th event boundary")
@@ -110,6 +112,32 @@ func main() {
 				seg = drv.RunKvs(cfg, t, seg)
 			}
 		}
+		t.Close()
+		fmt.Printf("events=%d\n", t.N)
+	case "layout":
+		t, err := drv.NewTrace(*out)
+		if err != nil {
+			panic(err)
+		}
+		var sizes []uint64
+		fill := map[uint64]bool{}
+		for _, x := range strings.Split(*sizesFlag, ",") {
+			var a, b uint64
+			if n, _ := fmt.Sscanf(x, "%d-%d", &a, &b); n == 2 {
+				for v := a; v <= b; v++ {
+					sizes = append(sizes, v)
+				}
+			} else if n, _ := fmt.Sscanf(x, "%d", &a); n == 1 {
+				sizes = append(sizes, a)
+			}
+		}
+		for _, x := range strings.Split(*fillFlag, ",") {
+			var a uint64
+			if n, _ := fmt.Sscanf(x, "%d", &a); n == 1 {
+				fill[a] = true
+			}
+		}
+		drv.RunLayout(sizes, fill, t, 0)
 		t.Close()
 		fmt.Printf("events=%d\n", t.N)
 	case "probes":
